@@ -198,7 +198,12 @@ impl State {
     /// which may need to be generated first.
     pub fn eval_parameter_arg(&mut self, parameter: &Arg) -> DataDomain<BitvectorDomain> {
         match parameter {
-            Arg::Register { expr, data_type: _ } => self.eval(expr),
+            Arg::Register { expr, data_type: _ } => {
+                // The IDs of the input registers may not survive the evaluation of the expression
+                // (e.g. for sub-register parameters like `Subpiece(0, 4, RDI)`), but they are read nonetheless.
+                self.set_read_flag_for_input_ids_of_expression(expr);
+                self.eval(expr)
+            }
             Arg::Stack {
                 address,
                 size,
